@@ -125,13 +125,20 @@ type outcome struct {
 	entry             *base.SentinelEntry
 }
 
+// implicitOut: the running outbound request does not name its traffic type (outbound is the documented default)
+var implicitOut bool
+
 func enter(name string, ty base.TrafficType, b uint32) (o outcome) {
 	defer func() {
 		if e := recover(); e != nil {
 			o = outcome{panicked: true}
 		}
 	}()
-	e, berr := api.Entry(name, api.WithTrafficType(ty), api.WithBatchCount(b))
+	opts := []api.EntryOption{api.WithBatchCount(b)}
+	if !(implicitOut && ty == base.Outbound) {
+		opts = append(opts, api.WithTrafficType(ty))
+	}
+	e, berr := api.Entry(name, opts...)
 	if berr == nil {
 		return outcome{ok: true, entry: e}
 	}
@@ -221,7 +228,9 @@ func main() {
 			if ty == "in" {
 				tt = base.Inbound
 			}
+			implicitOut = s["imp"] == true
 			o := enter(fmt.Sprintf("c07_%d_r%d", r.tr, res), tt, uint32(b))
+			implicitOut = false
 			rec := hx.M{"op": "enter", "id": id, "res": res, "ty": ty, "b": b, "ok": o.ok}
 			if o.ok {
 				r.open[id] = o.entry
